@@ -362,20 +362,24 @@ theorem samp_next_fill (i k : Int) (first : Bool) (skip : Option Int) (rnd maxIn
     Samp.next ⟨i, first, k⟩ skip rnd maxInt = ((i, i), ⟨i + 1, first, k⟩) := by
   simp [Samp.next, sampFill, sampFillJ, sampFillNext, sampFillReplace, sampFillIncs, h]
 
-theorem samp_next_first (k sk rnd maxInt : Int) :
-    Samp.next ⟨k, true, k⟩ (some sk) rnd maxInt = ((k - 1 + (sk + 1), rnd), ⟨k - 1 + (sk + 1), false, k⟩) := by
-  simp [Samp.next, sampFill, sampFirst, sampFirstDecs, sampFirstClears, sampBad, sampAdvanceAdds,
-    sampAdvance, sampNext, sampReplace]
+/-- `int(skip) + 1` is exact for a skip below `MaxInt64` -/
+theorem sampAdvance_exact (sk : Int) (h0 : 0 ≤ sk) (h1 : sk < 9223372036854775807) : sampAdvance sk = sk + 1 := by
+  unfold sampAdvance; exact wrap64_of_range (by omega) (by omega)
 
-theorem samp_next_later (i k sk rnd maxInt : Int) (h : k ≤ i) :
+theorem samp_next_first (k sk rnd maxInt : Int) (h0 : 0 ≤ sk) (h1 : sk < 9223372036854775807) :
+    Samp.next ⟨k, true, k⟩ (some sk) rnd maxInt = ((k - 1 + (sk + 1), rnd), ⟨k - 1 + (sk + 1), false, k⟩) := by
+  simp [Samp.next, sampAdvance_exact sk h0 h1, sampFill, sampFirst, sampFirstDecs, sampFirstClears, sampBad, sampAdvanceAdds,
+    sampNext, sampReplace]
+
+theorem samp_next_later (i k sk rnd maxInt : Int) (h : k ≤ i) (h0 : 0 ≤ sk) (h1 : sk < 9223372036854775807) :
     Samp.next ⟨i, false, k⟩ (some sk) rnd maxInt = ((i + (sk + 1), rnd), ⟨i + (sk + 1), false, k⟩) := by
   have h' : ¬ i < k := by omega
-  simp [Samp.next, sampFill, sampFirst, sampBad, sampAdvanceAdds,
-    sampAdvance, sampNext, sampReplace, h']
+  simp [Samp.next, sampAdvance_exact sk h0 h1, sampFill, sampFirst, sampBad, sampAdvanceAdds,
+    sampNext, sampReplace, h']
 
 theorem samplerRun_sampRest (k n maxInt : Int) : ∀ (m : Nat) (s : Samp) (script : List (Option Int × Int))
     (idx : Nat) (lb : Int), s.k = k →
-    (∀ e ∈ script, ∃ sk, e.1 = some sk ∧ 0 ≤ sk ∧ 0 ≤ e.2 ∧ e.2 < k) →
+    (∀ e ∈ script, ∃ sk, e.1 = some sk ∧ 0 ≤ sk ∧ sk < 9223372036854775807 ∧ 0 ≤ e.2 ∧ e.2 < k) →
     ((s.first = true ∧ s.i = idx ∧ (idx : Int) ≤ k ∧ lb ≤ idx) ∨
       (s.first = false ∧ k ≤ s.i ∧ k ≤ (idx : Int) ∧ lb ≤ s.i + 1)) →
     SampRest k n idx lb (samplerRun maxInt m s script)
@@ -400,25 +404,25 @@ theorem samplerRun_sampRest (k n maxInt : Int) : ∀ (m : Nat) (s : Samp) (scrip
       | nil => simp only [samplerRun, hfill]; trivial
       | cons e rest =>
         obtain ⟨skip, rnd⟩ := e
-        obtain ⟨sk, hsk, hsk0, hr0, hrk⟩ := hs (skip, rnd) (by simp)
+        obtain ⟨sk, hsk, hsk0, hsk1, hr0, hrk⟩ := hs (skip, rnd) (by simp)
         simp only at hsk hr0 hrk
         subst hsk
-        have hs' : ∀ e ∈ rest, ∃ sk, e.1 = some sk ∧ 0 ≤ sk ∧ 0 ≤ e.2 ∧ e.2 < k' :=
+        have hs' : ∀ e ∈ rest, ∃ sk, e.1 = some sk ∧ 0 ≤ sk ∧ sk < 9223372036854775807 ∧ 0 ≤ e.2 ∧ e.2 < k' :=
           fun e he => hs e (List.mem_cons_of_mem _ he)
         rcases hst with ⟨rfl, hi, hik, hlb⟩ | ⟨rfl, hi, hik, hlb⟩
         · have : i = k' := by omega
           subst this
-          simp only [samplerRun, hfill, samp_next_first]
+          simp only [samplerRun, hfill, samp_next_first _ _ _ _ hsk0 hsk1]
           refine ⟨by omega, fun h => by omega, fun _ => ⟨by omega, Or.inl ⟨hr0, hrk⟩⟩, ?_⟩
           exact samplerRun_sampRest i n maxInt m _ rest (idx + 1) _ rfl hs'
             (Or.inr ⟨rfl, by simp only; omega, by omega, by simp only; omega⟩)
-        · simp only [samplerRun, hfill, samp_next_later _ _ _ _ _ hi]
+        · simp only [samplerRun, hfill, samp_next_later _ _ _ _ _ hi hsk0 hsk1]
           refine ⟨by omega, fun h => by omega, fun _ => ⟨by omega, Or.inl ⟨hr0, hrk⟩⟩, ?_⟩
           exact samplerRun_sampRest k' n maxInt m _ rest (idx + 1) _ rfl hs'
             (Or.inr ⟨rfl, by simp only; omega, by omega, by simp only; omega⟩)
 
 theorem sampler_decisions_contract (k n maxInt : Int) (hk : 0 ≤ k) (m : Nat) (script : List (Option Int × Int))
-    (hs : ∀ e ∈ script, ∃ sk, e.1 = some sk ∧ 0 ≤ sk ∧ 0 ≤ e.2 ∧ e.2 < k) :
+    (hs : ∀ e ∈ script, ∃ sk, e.1 = some sk ∧ 0 ≤ sk ∧ sk < 9223372036854775807 ∧ 0 ≤ e.2 ∧ e.2 < k) :
     SamplerContract k n (samplerRun maxInt m (newSamp k) script) :=
   contract_of_sampRest k n _ 0 (samplerRun_sampRest k n maxInt m (newSamp k) script 0 0 rfl hs
     (Or.inl ⟨rfl, rfl, by simpa using hk, by simp⟩))
